@@ -7,6 +7,7 @@ import (
 	"encoding/json"
 	"fmt"
 	"os"
+	"reflect"
 	"strconv"
 	"strings"
 
@@ -18,7 +19,8 @@ import (
 
 // Spec-built seeds of a decode-only type: spec/gen/VmTuple_Gen.tla writes TVM tuples (well-formed ones with the
 // value they denote, and their ill-formed neighbours) as bags; the library has no encoder for them. Each vector is
-// decoded as a tlb.VmStackValue, as the only entry of a tlb.VmStack, and through VmStack.UnmarshalTL. The decoded
+// decoded as a tlb.VmStackValue, as the only entry of a tlb.VmStack, and through VmStack.UnmarshalTL, and read on into Go
+// values by VmStackValue.Unmarshal / VmStkTuple.Unmarshal / RecursiveToSlice (both). The decoded
 // value is flattened to the same text the specification uses (nil | nan | int:<n> | tuple(e1,e2,..)), following
 // the schema: VmTuple (n+1) = head:(VmTupleRef n) tail; VmTupleRef 1 = entry; VmTupleRef (n+2) = ref:^(VmTuple (n+2)).
 
@@ -73,13 +75,58 @@ func refEntries(n int, r tlb.VmTupleRef, out *[]string) {
 	}
 }
 
+// structOfInts is struct{ F0, F1, .. int64 } with n fields: the destination a tuple of n integers is read into.
+func structOfInts(n int) reflect.Type {
+	fs := make([]reflect.StructField, n)
+	for i := range fs {
+		fs[i] = reflect.StructField{Name: "F" + strconv.Itoa(i), Type: reflect.TypeOf(int64(0))}
+	}
+	return reflect.StructOf(fs)
+}
+
+// The "read:*" forms: the tuple - whatever the decoder made of the vector, well-formed or not - is read on into Go values by
+// the readers of tlb/tuple.go. Nothing is asked of them here but to return within budget (the event says wf = false: the
+// clause "a well-formed vector decodes to its entries" is about the three decoding forms; "variant" keeps the vector's class).
+var tupleReadSites = map[string]string{"read:struct": "VmStackValue.Unmarshal", "read:slice": "VmStkTuple.Unmarshal",
+	"read:list": "VmStkTuple.RecursiveToSlice", "read:body": "VmTuple.RecursiveToSlice"}
+
+func readTuple(form string, root *boc.Cell) error {
+	var val tlb.VmStackValue
+	if err := tlb.Unmarshal(root, &val); err != nil {
+		return err
+	}
+	if val.SumType != "VmStkTuple" {
+		return fmt.Errorf("not a tuple")
+	}
+	t := val.VmStkTuple
+	switch form {
+	case "read:struct":
+		return val.Unmarshal(reflect.New(structOfInts(int(t.Len))).Interface())
+	case "read:slice":
+		var d []int64
+		return t.Unmarshal(&d)
+	case "read:list":
+		_, err := t.RecursiveToSlice()
+		return err
+	default:
+		if t.Data == nil {
+			return fmt.Errorf("tuple without a body")
+		}
+		_, err := t.Data.RecursiveToSlice(int(t.Len))
+		return err
+	}
+}
+
 func execTuple(r *Rec, form string, v tupleVec) {
 	src := v.Boc
-	if form != "value" {
+	if form == "stack" || form == "tl" {
 		src = v.Stack
 	}
 	raw, _ := hex.DecodeString(src)
 	in := ev.M{"form": form, "boc": src, "n": v.N, "variant": v.Kind, "wf": v.WF, "vals": v.Vals, "type": "tlb.VmStkTuple", "cells": 0, "bits": 0}
+	if _, ok := tupleReadSites[form]; ok {
+		in["wf"] = false
+	}
 	keep := []string{"form", "n", "wf", "vals", "type", "cells", "bits"}
 	if r.Skipped() {
 		r.SkipSlot()
@@ -96,6 +143,13 @@ func execTuple(r *Rec, form string, v tupleVec) {
 	}
 	cells, bits, _ := measure(roots[0])
 	in["cells"], in["bits"] = cells, bits
+	if site, ok := tupleReadSites[form]; ok {
+		r.Call("Tuple", site, "tuple:"+v.Kind, in, keep, func(out ev.M) error {
+			out["got"] = ""
+			return readTuple(form, roots[0])
+		})
+		return
+	}
 	site := map[string]string{"value": "tlb.Unmarshal", "stack": "tlb.Unmarshal", "tl": "VmStack.UnmarshalTL"}[form]
 	var got string
 	r.CallPost("Tuple", site, "tuple:"+v.Kind, in, keep, func(out ev.M) error {
@@ -152,7 +206,7 @@ func DriveTuples(w *ev.Writer, o Opts) error {
 		if v.Boc == "" {
 			continue
 		}
-		for _, form := range []string{"value", "stack", "tl"} {
+		for _, form := range []string{"value", "stack", "tl", "read:struct", "read:slice", "read:list", "read:body"} {
 			execTuple(r, form, v)
 		}
 	}
